@@ -241,7 +241,7 @@ class Model:
             from .inventory import FUNCTIONS, MODULE_NAMES
         except ImportError:
             return
-        from .inline import MAX_ROUNDS, canonical_spellings, collapse_return_temps, dissolve_attribute_records, dissolve_parameter_objects, fold_after_inlining, propagate_local_aliases, desugar_ifexp, desugar_match, desugar_exitstacks, desugar_partials_and_extends, desugar_return_all_any, dissolve_new_cm_classes, drop_absorbed_helpers, erase_new_namedtuples, inline_new_helpers, scalarise_local_dicts, unroll_new_tables, propagate_new_constants
+        from .inline import MAX_ROUNDS, canonical_spellings, collapse_return_temps, collapse_test_temps, dissolve_attribute_records, dissolve_parameter_objects, fold_after_inlining, propagate_local_aliases, desugar_ifexp, desugar_match, desugar_exitstacks, desugar_partials_and_extends, desugar_return_all_any, dissolve_new_cm_classes, drop_absorbed_helpers, scalarise_local_objects, desugar_module_name_tables, erase_new_namedtuples, inline_new_helpers, scalarise_local_dicts, unroll_new_tables, propagate_new_constants
 
         # functions whose source differs from the pinned tree (digest of ast.dump): only those are rewritten by the
         # statement-level normalisations that would otherwise also touch pinned code
@@ -253,9 +253,20 @@ class Model:
 
         self.changed_functions = {q for q, f_ in self.functions.items() if not f_.module.short.startswith("_typeguard")
                                   and HASHES.get(q) != hashlib.sha1(ast.dump(f_.node).encode()).hexdigest()[:12]}
+        try:
+            from .inventory import LOCALS
+        except ImportError:
+            LOCALS = {}
+        from .alpha import rename_locals_back
+
+        self.locals_renamed = rename_locals_back(self, self.changed_functions, LOCALS) if self.changed_functions else []
+        if self.locals_renamed:
+            self._reindex()
         if canonical_spellings(self):
             self._reindex()
         if self.changed_functions and collapse_return_temps(self, self.changed_functions):
+            self._reindex()
+        if self.changed_functions and collapse_test_temps(self, self.changed_functions):
             self._reindex()
         if desugar_match(self):
             self._reindex()
@@ -287,6 +298,9 @@ class Model:
             self.cms_dissolved += d_
             self._reindex()
 
+        self.name_tables = desugar_module_name_tables(self, MODULE_NAMES)
+        if self.name_tables:
+            self._reindex()
         self.tables_unrolled = unroll_new_tables(self, MODULE_NAMES)
         if self.tables_unrolled:
             self.dicts_scalarised = scalarise_local_dicts(self)
@@ -305,6 +319,9 @@ class Model:
         if self.inlined:
             # records that only became visible as constructor arguments once a factory was inlined
             if dissolve_attribute_records(self, MODULE_NAMES):
+                self._reindex()
+            self.objects_scalarised = scalarise_local_objects(self, MODULE_NAMES, set(self.inlined) | set(self.changed_functions))
+            if self.objects_scalarised:
                 self._reindex()
             if fold_after_inlining(self, self.inlined):
                 self._reindex()
@@ -513,7 +530,12 @@ class Model:
         mod = qualname.split(".")[0]
         cands = [g for q, g in self.functions.items() if g.module.short == mod and q not in FUNCTIONS and tuple(g.params) == tuple(ps)
                  and "<locals>" not in q]
-        return cands[0] if len(cands) == 1 else None
+        try:
+            from .inventory import BAGS
+        except ImportError:
+            BAGS = {}
+        from .alpha import pick_renamed
+        return pick_renamed(cands, BAGS.get(qualname))
 
     def is_call_to(self, scope, call, qualname: str) -> bool:
         """Does `call` (seen from `scope`) invoke the anchor function `qualname` -- under whatever name /
